@@ -522,6 +522,17 @@ func (ts *TermStore) Arith(op Op, x, y *Term) *Term {
 		if x == y {
 			return x
 		}
+		// disjoint bit fields OR-ed together are a concatenation: big-endian reassembly of bytes
+		// that were cut out of one value folds back to that value
+		if w <= 64 {
+			if pa, ok := ts.fields(x, 0); ok {
+				if pb, ok := ts.fields(y, 0); ok {
+					if r := ts.joinFields(w, append(pa, pb...)); r != nil {
+						return r
+					}
+				}
+			}
+		}
 		// (h ++ 0_k) | zext(l), width(l) <= k  ==>  h ++ zext_k(l)
 		for i := 0; i < 2; i++ {
 			a, b := x, y
@@ -958,4 +969,86 @@ func maxInt(a, b int) int {
 		return a
 	}
 	return b
+}
+
+type bitField struct {
+	lo int
+	t  *Term
+}
+
+// fields decomposes t into non-overlapping pieces placed at bit offsets (all other bits zero).
+func (ts *TermStore) fields(t *Term, depth int) ([]bitField, bool) {
+	if depth > 12 {
+		return nil, false
+	}
+	switch t.op {
+	case OpConst:
+		if t.val == 0 {
+			return nil, true
+		}
+		return []bitField{{0, t}}, true
+	case OpZext:
+		return ts.fields(t.a[0], depth+1)
+	case OpConcat:
+		lo, ok1 := ts.fields(t.a[1], depth+1)
+		hi, ok2 := ts.fields(t.a[0], depth+1)
+		if !ok1 || !ok2 {
+			return nil, false
+		}
+		out := append([]bitField(nil), lo...)
+		for _, f := range hi {
+			out = append(out, bitField{f.lo + t.a[1].w, f.t})
+		}
+		return out, true
+	case OpBOr:
+		a, ok1 := ts.fields(t.a[0], depth+1)
+		b, ok2 := ts.fields(t.a[1], depth+1)
+		if !ok1 || !ok2 {
+			return nil, false
+		}
+		return append(a, b...), true
+	}
+	return []bitField{{0, t}}, true
+}
+
+// joinFields builds the concatenation of disjoint fields (nil if they overlap or exceed w).
+func (ts *TermStore) joinFields(w int, fs []bitField) *Term {
+	if len(fs) == 0 {
+		return ts.BV(w, 0)
+	}
+	// insertion sort by lo
+	for i := 1; i < len(fs); i++ {
+		for j := i; j > 0 && fs[j].lo < fs[j-1].lo; j-- {
+			fs[j], fs[j-1] = fs[j-1], fs[j]
+		}
+	}
+	pos := 0
+	var acc *Term
+	add := func(t *Term) {
+		if acc == nil {
+			acc = t
+		} else {
+			acc = ts.Concat(t, acc)
+		}
+	}
+	for _, f := range fs {
+		if f.lo < pos || f.lo+f.t.w > w {
+			return nil
+		}
+		if f.lo > pos {
+			add(ts.BV(f.lo-pos, 0))
+		}
+		add(f.t)
+		pos = f.lo + f.t.w
+	}
+	if pos < w {
+		if acc.w+(w-pos) > 64 && false {
+			return nil
+		}
+		add(ts.BV(w-pos, 0))
+	}
+	if acc.w != w {
+		return nil
+	}
+	return acc
 }
